@@ -11,6 +11,8 @@ sequence of enabled actions).
 namespace Restic.Props.C42
 open Restic.Model.Traverse
 
+set_option linter.unusedSectionVars false
+
 variable {ID : Type} [DecidableEq ID]
 
 /-- reference semantics: the least set containing the roots and closed under `children` -/
@@ -679,5 +681,71 @@ theorem undecodable_no_panic {cfg : Cfg ID} {c : Consumer ID} (hd : Drains cfg c
     | workPanic _ _ hpr hst' => exact absurd (hd _ _ _ _ _ _ hst' hpr) (by simp)
     | workDone hr _ _ => simp [hr]
     | recv hr _ => simp [hr]
+
+
+/-! ### Progress: the traversal never gets stuck -/
+
+/-- **progress** (deadlock freedom): a running state that is not terminal always has an enabled
+    action, so every maximal execution ends in a terminal, failed or panicked state. -/
+theorem progress (cfg : Cfg ID) (c : Consumer ID) (s : State ID) (hr : s.status = .running)
+    (ht : terminal s = false) : ∃ a, (step cfg c a s).isSome = true := by
+  have hne : ¬ (s.status ≠ .running) := by simp [hr]
+  cases hp : s.pending with
+  | some id => exact ⟨.send, by simp [step, hr, hp]⟩
+  | none =>
+    cases hb : s.backlog with
+    | cons id rest =>
+      by_cases hm : id ∈ s.seen
+      · exact ⟨.pop, by simp [step, hr, hp, hb, hm]⟩
+      · exact ⟨.pop, by simp [step, hr, hp, hb, hm]⟩
+    | nil =>
+      cases ho : s.outstanding with
+      | cons id rest =>
+        have hm : id ∈ s.outstanding := by simp [ho]
+        refine ⟨.work id, ?_⟩
+        simp only [step, hne, if_false, hm, if_true]
+        cases c.proc cfg id (cfg.store id) with
+        | abort => simp
+        | fine bl rep dr =>
+          simp only
+          cases cfg.store id with
+          | missing => simp
+          | tree nodes b => cases dr <;> simp
+      | nil =>
+        cases hd : s.done with
+        | cons p rest =>
+          have hm : (p.1, p.2) ∈ s.done := by simp [hd]
+          exact ⟨.recv p.1 p.2, by simp only [step, hne, if_false, hm, if_true, Option.isSome_some]⟩
+        | nil =>
+          exfalso
+          have : terminal s = true := (terminal_iff s).mpr ⟨hr, hp, hb, ho, hd⟩
+          rw [this] at ht; cases ht
+
+/-- terminal states have no enabled action -/
+theorem terminal_final (cfg : Cfg ID) (c : Consumer ID) (s : State ID) (ht : terminal s = true)
+    (a : Action ID) : step cfg c a s = none := by
+  obtain ⟨hr, hp, hb, ho, hd⟩ := (terminal_iff s).mp ht
+  cases a <;> simp [step, hr, hp, hb, ho, hd]
+
+/-- the scheduler used by the correspondence driver produces executions in the sense of `Run`,
+    so every theorem above applies to what the driver computes -/
+theorem Run.head {cfg : Cfg ID} {c : Consumer ID} {a : Action ID} {s s' s'' : State ID}
+    (hs : step cfg c a s = some s') (h : Run cfg c s' s'') : Run cfg c s s'' := by
+  induction h with
+  | refl => exact .tail a (.refl s) hs
+  | tail b _ hb ih => exact .tail b ih hb
+
+theorem run_Run (cfg : Cfg ID) (c : Consumer ID) (fuel : Nat) (ch : List Nat) (s : State ID) :
+    Run cfg c s (run cfg c fuel ch s) := by
+  induction fuel generalizing ch s with
+  | zero => exact .refl s
+  | succ n ih =>
+    unfold run
+    split
+    · exact .refl s
+    · split
+      · exact .refl s
+      · rename_i s' hs
+        exact Run.head hs (ih _ s')
 
 end Restic.Props.C42
